@@ -163,6 +163,7 @@ impl System {
         replication_factor: Option<u8>,
     ) -> Result<&Topic, IggyError> {
         self.ensure_authenticated(session)?;
+        let updated_topic_id: Identifier;
         {
             let topic = self
                 .find_topic(session, stream_id, topic_id)
@@ -183,6 +184,7 @@ impl System {
                     topic.topic_id,
                 )
             })?;
+            updated_topic_id = topic.topic_id.try_into()?;
         }
 
         self.get_stream_mut(stream_id)?
@@ -208,7 +210,7 @@ impl System {
             .with_error_context(|error| {
                 format!("{COMPONENT} (error: {error}) - failed to get stream with ID: {stream_id}")
             })?
-            .get_topic(topic_id)
+            .get_topic(&updated_topic_id)
             .with_error_context(|error| {
                 format!("{COMPONENT} (error: {error}) - failed to get topic with ID: {topic_id} in stream with ID: {stream_id}")
             })
